@@ -384,12 +384,10 @@ class SymInt:
     def __ge__(self, o): return self._cmp(o, lambda a, b: a >= b, ">=")
 
     def __eq__(self, o):
-        r = self._cmp(o, lambda a, b: a == b, "==")
-        return False if r is NotImplemented else r
+        return self._cmp(o, lambda a, b: a == b, "==")
 
     def __ne__(self, o):
-        r = self._cmp(o, lambda a, b: a != b, "!=")
-        return True if r is NotImplemented else r
+        return self._cmp(o, lambda a, b: a != b, "!=")
 
     def __bool__(self):
         return E().decide(z3.simplify(self.t != 0))
@@ -552,12 +550,10 @@ class SymFloat:
     def __ge__(self, o): return self._cmpf(o, lambda a, b: a >= b)
 
     def __eq__(self, o):
-        r = self._cmpf(o, lambda a, b: a == b)
-        return False if r is NotImplemented else r
+        return self._cmpf(o, lambda a, b: a == b)
 
     def __ne__(self, o):
-        r = self._cmpf(o, lambda a, b: a != b)
-        return True if r is NotImplemented else r
+        return self._cmpf(o, lambda a, b: a != b)
 
     def __bool__(self):
         return bool(self.iv != 0)
